@@ -271,8 +271,6 @@ def T8(m, R):
     for cname in ('AnsiString', 'AnsiStr'):
         for n, f in m.public_methods(cname).items():
             pub.append(f)
-    pub.append(m.fn('AnsiString._strip'))
-    pub.append(m.fn('AnsiString._split'))
     for n, f in m.funcs.items():
         if f.cls is None and f.mod.name in ('ansi_string', 'ansi_parsing') and not n.startswith('_'):
             pub.append(f)
@@ -328,5 +326,8 @@ def T8(m, R):
         for p in sf.own_params() + sf.kwonly:
             if p in tw.defaults or p in sf.defaults:
                 a, b = norm(tw.defaults.get(p)), norm(sf.defaults.get(p))
+                va, vb = const_val(tw.defaults.get(p), None), const_val(sf.defaults.get(p), None)
+                if BY_NAME.get(p) is NEG and isinstance(va, int) and isinstance(vb, int) and va < 0 and vb < 0:
+                    a = b      # every negative value means "no limit"
                 R.check(a == b, sf, sf.defaults.get(p) or sf.node, 'twin default %s=%s' % (p, b), 'AnsiStr.%s(%s=%s) but AnsiString has %s' % (n, p, b, a),
                         construct='twin default %s(%s=)' % (n, p))
